@@ -570,14 +570,19 @@ variable (K T : ℕ) (π : ℕ → ℝ) (A : ℕ → ℕ → ℝ) (x μ v : ℕ 
 /-- the emission table of a Gaussian-emission model on the observations `x` -/
 noncomputable def gaussTab (x μ v : ℕ → ℝ) : ℕ → ℕ → ℝ := fun t j => gaussR (x t) (μ j) (v j)
 
-/-- `gamma.sum(axis=0)[j]` (times `L`) -/
-noncomputable def wsum (j : ℕ) : ℝ := ∑ t ∈ range T, G K T π A (gaussTab x μ v) t j
-/-- `x_bar = np.sum(gamma * col(data), axis=0) / gamma.sum(axis=0)` -/
-noncomputable def newMu (j : ℕ) : ℝ :=
-  (∑ t ∈ range T, G K T π A (gaussTab x μ v) t j * x t) / wsum K T π A x μ v j
+/-- `gamma.sum(axis=0)[j]` (times `L`), for any emission table -/
+noncomputable def wsumB (b : ℕ → ℕ → ℝ) (j : ℕ) : ℝ := ∑ t ∈ range T, G K T π A b t j
+/-- `x_bar = np.sum(gamma * col(data), axis=0) / gamma.sum(axis=0)`, for any emission table -/
+noncomputable def newMuB (b : ℕ → ℕ → ℝ) (x : ℕ → ℝ) (j : ℕ) : ℝ :=
+  (∑ t ∈ range T, G K T π A b t j * x t) / wsumB K T π A b j
 /-- `variance = np.sum(gamma * (col(data) - row(x_bar)) ** 2, axis=0) / gamma.sum(axis=0)` -/
-noncomputable def newVar (j : ℕ) : ℝ :=
-  (∑ t ∈ range T, G K T π A (gaussTab x μ v) t j * (x t - newMu K T π A x μ v j) ^ 2) / wsum K T π A x μ v j
+noncomputable def newVarB (b : ℕ → ℕ → ℝ) (x : ℕ → ℝ) (j : ℕ) : ℝ :=
+  (∑ t ∈ range T, G K T π A b t j * (x t - newMuB K T π A b x j) ^ 2) / wsumB K T π A b j
+
+/-- the same for a Gaussian-emission model -/
+noncomputable def wsum (j : ℕ) : ℝ := wsumB K T π A (gaussTab x μ v) j
+noncomputable def newMu (j : ℕ) : ℝ := newMuB K T π A (gaussTab x μ v) x j
+noncomputable def newVar (j : ℕ) : ℝ := newVarB K T π A (gaussTab x μ v) x j
 
 variable {K T π A x μ v}
 
@@ -776,6 +781,41 @@ theorem getD_dropLast {α} (d : α) (l : List α) (t : ℕ) (ht : t < l.length -
   rw [List.getD_eq_getElem?_getD, List.getD_eq_getElem?_getD, List.getElem?_eq_getElem h2,
     List.getElem?_eq_getElem ht', List.getElem_dropLast]
 
+section links
+variable {K : ℕ} {pi : ℕ → ℚ} {A : ℕ → ℕ → ℚ} {B : List Vec}
+
+/-- the model's re-estimated initial distribution is the `π'` of `em_monotone` -/
+theorem pi_link (gammas : List Vec) (L : ℚ) (hLne : (L : ℝ) ≠ 0)
+    (hLR : LR K B.length (cpi pi) (cA A) (tabR B) = (L : ℝ)) {i : ℕ}
+    (hG : G K B.length (cpi pi) (cA A) (tabR B) 0 i = ((atR (gammas.getD 0 []) i : ℚ) : ℝ) * (L : ℝ)) :
+    newPi K B.length (cpi pi) (cA A) (tabR B) i = ((atR (updPi gammas) i : ℚ) : ℝ) := by
+  unfold newPi
+  rw [hLR, hG, mul_div_assoc, div_self hLne, mul_one]
+  have : updPi gammas = gammas.getD 0 [] := by cases gammas <;> simp [updPi]
+  rw [this]
+
+/-- the model's re-estimated transition matrix is the `A'` of `em_monotone` -/
+theorem A_link (gammas : List Vec) (xis : List (List Vec)) (L : ℚ) (hLne : (L : ℝ) ≠ 0)
+    (hxl : xis.length = B.length - 1) (hgl : gammas.length = B.length) {i j : ℕ} (hi : i < K) (hj : j < K)
+    (hG : ∀ t, t < B.length → G K B.length (cpi pi) (cA A) (tabR B) t i
+      = ((atR (gammas.getD t []) i : ℚ) : ℝ) * (L : ℝ))
+    (hX : ∀ t, t + 1 < B.length → X K B.length (cpi pi) (cA A) (tabR B) t i j
+      = ((atR ((xis.getD t []).getD i []) j : ℚ) : ℝ) * (L : ℝ)) :
+    newA K B.length (cpi pi) (cA A) (tabR B) i j = ((fnOfRows (updA K gammas xis) i j : ℚ) : ℝ) := by
+  unfold newA Nij occ fnOfRows updA
+  rw [getD_tab _ _ _ _ hi, atR_tab _ _ _ hj, sumT_range ([] : List Vec), sumT_range ([] : Vec), hxl]
+  rw [List.length_dropLast, hgl]
+  push_cast
+  rw [Finset.sum_congr rfl (fun t ht => hX t (by have := mem_range.mp ht; omega)),
+    Finset.sum_congr rfl (fun t ht => hG t (by have := mem_range.mp ht; omega)),
+    ← Finset.sum_mul, ← Finset.sum_mul, mul_div_mul_right _ _ hLne]
+  congr 1
+  apply Finset.sum_congr rfl
+  intro t ht
+  rw [getD_dropLast _ _ _ (by rw [hgl]; exact mem_range.mp ht)]
+
+end links
+
 /-- Re-estimating `π` and `A` from exact posteriors (emission table kept) does not decrease the
     exact likelihood — the rational model's `updPi`, `updA`, given that its `γ`, `ξ`, `L` are exact. -/
 theorem em_tables_of_exact (K : ℕ) (pi : ℕ → ℚ) (A : ℕ → ℕ → ℚ) (B : List Vec)
@@ -827,25 +867,64 @@ theorem em_tables_of_exact (K : ℕ) (pi : ℕ → ℚ) (A : ℕ → ℕ → ℚ
     rw [cast_likelihoodSpec hB]
     apply LR_congr hT
     · intro i hi
-      unfold newPi
-      rw [hLR, hG 0 i hT hi, mul_div_assoc, div_self hLne, mul_one]
-      have : updPi gammas = gammas.getD 0 [] := by cases gammas <;> simp [updPi]
-      rw [this]; rfl
+      exact pi_link gammas L hLne hLR (hG 0 i hT hi)
     · intro i j hi hj
-      show _ = ((fnOfRows (updA K gammas xis) i j : ℚ) : ℝ)
-      unfold newA Nij occ fnOfRows updA
-      rw [getD_tab _ _ _ _ hi, atR_tab _ _ _ hj, sumT_range ([] : List Vec), sumT_range ([] : Vec), hxl]
-      rw [List.length_dropLast, hgl]
-      push_cast
-      rw [Finset.sum_congr rfl (fun t ht => hX t i j (by have := mem_range.mp ht; omega) hi hj),
-        Finset.sum_congr rfl (fun t ht => hG t i (by have := mem_range.mp ht; omega) hi),
-        ← Finset.sum_mul, ← Finset.sum_mul, mul_div_mul_right _ _ hLne]
-      congr 1
-      apply Finset.sum_congr rfl
-      intro t ht
-      rw [getD_dropLast _ _ _ (by rw [hgl]; exact mem_range.mp ht)]
+      exact A_link gammas xis L hLne hxl hgl hi hj (fun t ht => hG t i ht hi) (fun t ht => hX t i j ht hi hj)
   rw [e, ← cast_likelihoodSpec hB] at key
   exact_mod_cast key
+
+/-! ### the model's re-estimated means and variances -/
+
+theorem sumT_zip_range : ∀ (γ : List Vec) (data : List ℚ), data.length = γ.length →
+    ∀ f : Vec × ℚ → ℚ, sumT (γ.zip data) f = ∑ t ∈ range γ.length, f (γ.getD t [], data.getD t 0)
+  | [], _, _, f => by simp [sumT]
+  | g :: gs, [], h, f => by simp at h
+  | g :: gs, x :: xs, h, f => by
+    have h' : xs.length = gs.length := by simpa using h
+    rw [List.length_cons, Finset.sum_range_succ']
+    simp only [List.getD_cons_succ, List.getD_cons_zero]
+    rw [← sumT_zip_range gs xs h' f]; simp [sumT, add_comm]
+
+section
+variable {K : ℕ} {pi : ℕ → ℚ} {A : ℕ → ℕ → ℚ} {B : List Vec}
+
+/-- the model's re-estimated means are the weighted means of `em_monotone` -/
+theorem mean_link (gammas : List Vec) (data : List ℚ) (L : ℚ) (hL : (L : ℝ) ≠ 0)
+    (hgl : gammas.length = B.length) (hdl : data.length = B.length) {j : ℕ} (hj : j < K)
+    (hG : ∀ t, t < B.length → G K B.length (cpi pi) (cA A) (tabR B) t j
+      = ((atR (gammas.getD t []) j : ℚ) : ℝ) * (L : ℝ)) :
+    ((atR (updMean K gammas data) j : ℚ) : ℝ)
+      = newMuB K B.length (cpi pi) (cA A) (tabR B) (fun t => ((data.getD t 0 : ℚ) : ℝ)) j := by
+  unfold updMean newMuB wsumB
+  rw [atR_tab _ _ _ hj, sumT_zip_range gammas data (by rw [hdl, hgl]), sumT_range ([] : Vec), hgl]
+  push_cast
+  have e1 : ∀ t ∈ range B.length, G K B.length (cpi pi) (cA A) (tabR B) t j * ((data.getD t 0 : ℚ) : ℝ)
+      = (((atR (gammas.getD t []) j : ℚ) : ℝ) * ((data.getD t 0 : ℚ) : ℝ)) * (L : ℝ) := by
+    intro t ht; rw [hG t (mem_range.mp ht)]; ring
+  rw [Finset.sum_congr rfl e1, Finset.sum_congr rfl (fun t ht => hG t (mem_range.mp ht)),
+    ← Finset.sum_mul, ← Finset.sum_mul, mul_div_mul_right _ _ hL]
+
+/-- the model's re-estimated variances are the weighted variances of `em_monotone` -/
+theorem var_link (gammas : List Vec) (data : List ℚ) (L : ℚ) (hL : (L : ℝ) ≠ 0)
+    (hgl : gammas.length = B.length) (hdl : data.length = B.length) {j : ℕ} (hj : j < K)
+    (hG : ∀ t, t < B.length → G K B.length (cpi pi) (cA A) (tabR B) t j
+      = ((atR (gammas.getD t []) j : ℚ) : ℝ) * (L : ℝ)) :
+    ((atR (updVar K gammas data) j : ℚ) : ℝ)
+      = newVarB K B.length (cpi pi) (cA A) (tabR B) (fun t => ((data.getD t 0 : ℚ) : ℝ)) j := by
+  unfold newVarB
+  rw [← mean_link gammas data L hL hgl hdl hj hG]
+  unfold updVar wsumB
+  simp only []
+  rw [atR_tab _ _ _ hj, sumT_zip_range gammas data (by rw [hdl, hgl]), sumT_range ([] : Vec), hgl]
+  push_cast
+  have e1 : ∀ t ∈ range B.length, G K B.length (cpi pi) (cA A) (tabR B) t j
+        * (((data.getD t 0 : ℚ) : ℝ) - ((atR (updMean K gammas data) j : ℚ) : ℝ)) ^ 2
+      = (((atR (gammas.getD t []) j : ℚ) : ℝ) * ((((data.getD t 0 : ℚ) : ℝ) - ((atR (updMean K gammas data) j : ℚ) : ℝ))
+          * (((data.getD t 0 : ℚ) : ℝ) - ((atR (updMean K gammas data) j : ℚ) : ℝ)))) * (L : ℝ) := by
+    intro t ht; rw [hG t (mem_range.mp ht)]; ring
+  rw [Finset.sum_congr rfl e1, Finset.sum_congr rfl (fun t ht => hG t (mem_range.mp ht)),
+    ← Finset.sum_mul, ← Finset.sum_mul, mul_div_mul_right _ _ hL]
+end
 
 end EM
 end Verif.C16
